@@ -41,6 +41,21 @@ theorem collision_of_fixed_length (H : Bytes → Bytes) (N : Nat) (hH : ∀ x, (
   obtain ⟨x, y, hne, he⟩ := Vacuity.C09.collision_of_fixed_length H N hH
   exact ⟨x, y, hne, he⟩
 
+/-- `MmrBuild.root_injective_sized` / `eval_injective_shape` (the lemmas under `root_injective_bytes`): their
+hash hypotheses — a merge of fixed output length that is injective on splits of equal length — are
+unsatisfiable at the byte instance `len = List.length` (fix the left part: the right part ranges over all
+byte strings) … -/
+theorem root_injective_sized_hyps_unsat_bytes (N : Nat) :
+    ¬ ∃ m : Bytes → Bytes → Bytes, (∀ a b, (m a b).length = N) ∧
+      (∀ a b c d, a.length = c.length → m a b = m c d → a = c ∧ b = d) := by
+  rintro ⟨m, hN, hinj⟩
+  exact Vacuity.C09.pigeonhole (m []) N (hN []) (fun x y h => (hinj [] x [] y rfl h).2)
+
+/-- … but satisfiable for other carriers (`α = Nat`, constant `len`): the lemma itself is not vacuous -/
+example : (∀ a b : Nat, (fun _ : Nat => 0) (C09.pairM a b) = 0) ∧
+    (∀ a b c d : Nat, (fun _ : Nat => 0) a = (fun _ : Nat => 0) c → C09.pairM a b = C09.pairM c d → a = c ∧ b = d) :=
+  ⟨fun _ _ => rfl, fun a b c d _ h => Vacuity.C09.pairM_inj a b c d h⟩
+
 /-- **F2** the conclusion of `C12_sensitive_same_shape` from `hH` alone: no database, no root -/
 theorem C12_sensitive_same_shape_says_nothing (H : Bytes → Bytes) (N : Nat) (hH : ∀ x, (H x).length = N)
     (r r' : Result) : r.leaves = r'.leaves ∨ Collision H :=
